@@ -21,11 +21,14 @@ inductive Item where
   | err                -- carries an error and no tree (what the reader sends on a parse error)
   | tree (t : T)
 
-/-- why an item is erroneous for the reference `ref` (none = it is fine):
-    `item` = it carries an error, `taxa` = its tips are not the tips of the reference -/
+/-- why an item is erroneous for the reference `ref` (none = it is fine): `item` = it carries an error,
+    `dup` = two of its tips have the same name (its indexes cannot be built), `taxa` = its tips are not
+    the tips of the reference.  The ORACLE only uses "erroneous or not"; the class is for the tie. -/
 def Item.bad (ref : T) : Item → Option String
   | .err => some "item"
-  | .tree t => if sortS t.tipNames == sortS ref.tipNames then none else some "taxa"
+  | .tree t =>
+    if t.tipNames.eraseDups.length != t.tipNames.length then some "dup"
+    else if sortS t.tipNames == sortS ref.tipNames then none else some "taxa"
 
 def Item.isBad (ref : T) (it : Item) : Bool := (it.bad ref).isSome
 
@@ -33,10 +36,15 @@ def Item.isBad (ref : T) (it : Item) : Bool := (it.bad ref).isSome
 def terminated (outcome : String) : Bool :=
   outcome == "ok" || outcome.startsWith "err"
 
-/-- outcome is an error of one of the given classes (for the commands: the class of the message they
-    print; a command that fails for another reason — `err:exit` — has NOT delivered the tree's error) -/
+/-- outcome is an error of one of the given classes (kept for the tie; the oracle uses `anyErrOutcome`) -/
 def errOutcome (outcome : String) (classes : List String) : Bool :=
   classes.any (fun c => outcome == "err:" ++ c)
+
+/-- an error reached the caller: the call returned an error (library), the command printed an
+    `Error: …` line and exited with a non-zero status (`err:exit` = non-zero status WITHOUT such a line,
+    i.e. a failure that is not the report of an error).  Whatever the wording of the message. -/
+def anyErrOutcome (outcome : String) : Bool :=
+  outcome.startsWith "err:" && outcome != "err:exit"
 
 /-- One record of `Compare`. -/
 structure CmpRec where
@@ -95,11 +103,12 @@ structure WRec where
 def sortR (l : List Rat) : List Rat := l.mergeSort (fun a b => decide (a ≤ b))
 
 /-- `EdgeIndex` filled by `PutEdgeValue` in `Edges()` order: a later branch with the same bipartition
-    replaces the stored length -/
+    replaces the stored length.  Lengths are `lengthOrZero` (algo.go:948, since 462ffd9): a branch without
+    length counts 0, not the -1 marker. -/
 def edgeIndex (all : List String) (es : List SplitE) : List (List String × Rat) :=
   es.foldl (fun acc e =>
     let k := canonSide all e.below
-    if acc.any (·.1 == k) then acc.map (fun kv => if kv.1 == k then (k, e.e.len) else kv) else acc ++ [(k, e.e.len)]) []
+    if acc.any (·.1 == k) then acc.map (fun kv => if kv.1 == k then (k, e.e.lenOr0) else kv) else acc ++ [(k, e.e.lenOr0)]) []
 
 /-- first loop of the worker (algo.go:955-980), with its `break`s: (Common, Comp, sametree) -/
 def wLoop1 (refIdx : List (List String × Rat)) (all : List String) (tips binary : Bool) :
@@ -109,12 +118,12 @@ def wLoop1 (refIdx : List (List String × Rat)) (all : List String) (tips binary
     if tips || !e.tip then
       match refIdx.find? (·.1 == canonSide all e.below) with
       | some (_, refLen) =>
-        let same' := same && refLen == e.e.len
-        if refLen != e.e.len && binary then (common, comp, false)
-        else wLoop1 refIdx all tips binary r (common ++ [refLen - e.e.len], comp, same')
+        let same' := same && refLen == e.e.lenOr0
+        if refLen != e.e.lenOr0 && binary then (common, comp, false)
+        else wLoop1 refIdx all tips binary r (common ++ [refLen - e.e.lenOr0], comp, same')
       | none =>
         if binary then (common, comp, false)
-        else wLoop1 refIdx all tips binary r (common, comp ++ [e.e.len], false)
+        else wLoop1 refIdx all tips binary r (common, comp ++ [e.e.lenOr0], false)
     else wLoop1 refIdx all tips binary r (common, comp, same)
 
 /-- second loop (algo.go:983-996): (Ref, sametree) -/
@@ -125,7 +134,7 @@ def wLoop2 (compIdx : List (List String × Rat)) (all : List String) (tips binar
     if tips || !e.tip then
       if compIdx.any (·.1 == canonSide all e.below) then wLoop2 compIdx all tips binary r (ref, same)
       else if binary then (ref, false)
-      else wLoop2 compIdx all tips binary r (ref ++ [e.e.len], false)
+      else wLoop2 compIdx all tips binary r (ref ++ [e.e.lenOr0], false)
     else wLoop2 compIdx all tips binary r (ref, same)
 
 def weightedItem (ref : T) (tips binary : Bool) (id : Nat) (it : Item) : WRec :=
@@ -266,12 +275,16 @@ def runOK (r : Run) : Bool :=
   (if r.cancelled then true   -- a cancelled analysis only has to return (its partial result is unspecified)
    else if r.perItem then
      r.outcome == "ok" && r.records == r.records1 &&
-     recIdErr r.records == some ((List.range r.items.length).zip (r.items.map fun it => (it.bad r.ref).getD ""))
+     -- one record per tree id; it carries an error exactly when the tree is erroneous (whatever the message)
+     (match recIdErr r.records with
+      | some l => l.map (·.1) == List.range r.items.length &&
+                  l.map (fun x => x.2 != "") == r.items.map (Item.isBad r.ref)
+      | none => false)
    else if r.badClasses.isEmpty then
      -- exactly the result of the single-thread run, the moved-taxa statistics of TBE included
      r.outcome == "ok" && r.outcome1 == "ok" && r.records == r.records1
    else
-     errOutcome r.outcome r.badClasses)
+     anyErrOutcome r.outcome)
 
 /-- the narrow region of a possible, so far never observed, schedule dependence: TBE with the moved-taxa
     statistics, same supports, logs that differ only in the last printed decimal (the tallies of
@@ -287,9 +300,9 @@ def runWhy (r : Run) : String :=
   else if r.race != "" then "data race reported: " ++ r.race
   else if r.perItem && r.outcome != "ok" then "per-item pool failed as a whole: " ++ r.outcome
   else if r.perItem && r.records != r.records1 then "records differ from the single-thread run"
-  else if r.perItem then "records are not one per tree id with the item's error class"
+  else if r.perItem then "records are not one per tree id, with an error exactly for the erroneous trees"
   else if r.badClasses.isEmpty && r.outcome != "ok" then "failed on a stream without erroneous tree: " ++ r.outcome
   else if r.badClasses.isEmpty then "result differs from the single-thread run"
-  else "an erroneous tree did not make the call fail with its error: " ++ r.outcome
+  else "an erroneous tree did not make the call fail with an error: " ++ r.outcome
 
 end Gotree.C11
